@@ -8,8 +8,9 @@ units, three per comparison block = {first byte, middle, last byte} of a real 10
     re-joining or not; thorough: every same/different pattern, 3 blocks) x protocols 2, 3, 4 x all
     interleavings of the pipelined hash exchange: FinalEqualsSrc, MatchIsProven,
     SkippedNeverExceedsProven, TailCut, KeptOnlyProven, OthersUntouched, NoFailure, NoStuck
-    (thorough also Termination).  The as-coded variant (AsCoded = TRUE) is checked too:
-    its only stuck relation is "empty source over a non-empty file, protocol >= 3".
+    (thorough also Termination).  The variant AsCoded = TRUE (pipelineRecvHashAck before the fix
+    /repo cb319ea, found by this check) is checked too: it sits still in exactly one relation,
+    "empty source over a non-empty file, protocol >= 3".
  2. spec -> impl: ResumeGen exports every relation with what the design demands (agreed offset,
     units sent again, final content); harness/c08_resume.go materialises each selected case with
     the REAL block size (files of 0 .. 30 MiB; first differing byte at k*10 MiB-1 / k*10 MiB /
@@ -22,8 +23,10 @@ units, three per comparison block = {first byte, middle, last byte} of a real 10
     on it.  Verdict: an invariant false on a recorded run, or a recorded run that is not a
     behaviour of Resume (wrong ack, offset not proven, SIZE/payload different from
     |src| - agreed offset, transfer not completed).
-A time-out that the as-coded model does not predict is never a verdict: the run is repeated and,
-if it times out again, left out (counted as inconclusive)."""
+A time-out is never a verdict by itself: the run is repeated (twice); if it still times out it is
+left out (inconclusive) -- unless the recorded lines end in exactly the state in which the
+pre-fix model sits still (validated against ResumeTrace_ascoded.cfg): then the old defect is back
+(key nosuccess-emptysrc-p<protocol>)."""
 import os, json, glob, random, re
 import vlib
 
@@ -31,7 +34,7 @@ ASSUMPTIONS = [
     "MD5 of two different prefixes differs (the model's hash of a prefix is the prefix)",
     "a unit marked different differs in one byte at a seeded offset inside the unit; the driver measures the real common prefix of the two files and ResumeTrace cross-checks it against the case",
     "the data phase is abstracted to one DATA of `rest` units (its pipeline is C01/C02's subject); payload = what the receiver's last acknowledgement says is on disk, and SIZE as announced",
-    "a run that times out although the as-coded model can finish it is repeated and, if still timing out, not judged",
+    "a run that times out is repeated twice; still timing out it is not judged, except when it stops in the one state where the pre-fix model (AsCoded) stops too",
     "old-client protocols 2 and 3 are produced by rewriting the ACT line in flight (harness/e2e_wire.go)",
 ]
 
@@ -58,7 +61,7 @@ def stratum(c):
 
 def select(cases, tier, rng):
     """quick: one representative of a seeded choice of strata, protocol 4 favoured; thorough:
-    every relation under protocol 4, half of them under 3, a sample under 2."""
+    every relation under protocols 4 and 3, one per stratum under 2."""
     stuck = [c for c in cases if c["stuck"]]
     live = [c for c in cases if not c["stuck"]]
     by = {}
@@ -104,8 +107,8 @@ def select(cases, tier, rng):
                 chosen.append(c)
         for s in strata:
             if s[0] == 3:
-                chosen.extend(rng.sample(by[s], max(1, len(by[s]) // 2)))
-            elif s[0] == 2 and rng.random() < 0.5:
+                chosen.extend(by[s])
+            elif s[0] == 2:
                 chosen.append(rng.choice(by[s]))
         for p in (3, 4):
             ss = [c for c in stuck if c["proto"] == p]
@@ -132,7 +135,7 @@ def make_jobs(chosen, tier, rng, seed):
                 j["files"].append(f)
                 continue
         j = {"id": len(jobs) + 1, "upload": i % 2 == 0, "binary": (i // 2) % 2 == 0, "proto": c["proto"],
-             "seed": seed * 100003 + i, "timeout": 3 if c["stuck"] else 30, "files": [f]}
+             "seed": seed * 100003 + i, "timeout": 10 if c["stuck"] else 30, "files": [f]}
         jobs.append(j)
         if pair:
             pend[c["proto"]] = j
@@ -160,9 +163,10 @@ def describe(run, job):
 
 def judge(files, cfg, v, jobs, report=True, timeout=1800, max_rounds=12):
     """Validate; report the first offending run of each rejected file, cut it out, validate the rest
-    again.  Returns (list of (run id, key, what), TLC states)."""
+    again.  Returns (list of (run id, key, what), TLC states, run ids left unjudged)."""
     jobmap = {j["id"]: j for j in jobs}
     found = []
+    inconclusive = []
     states = 0
     todo = list(files)
     for rnd in range(max_rounds):
@@ -194,12 +198,25 @@ def judge(files, cfg, v, jobs, report=True, timeout=1800, max_rounds=12):
                 key = ("nosuccess-emptysrc-p%s" % proto) if rs.get("stuck") else "nosuccess-%s-p%s" % (kind, proto)
                 what = "the transfer did not complete (client: %s / server: %s); %s" % (
                     bad.get("cerr") or bad.get("cres"), bad.get("serr") or bad.get("sres"), vlib.explain_rejection(f, r["hw"]))
+                if bad.get("timeout"):
+                    # three attempts timed out.  Only the stop the pre-fix model predicts is a finding.
+                    one = os.path.join(vlib.scratch(), "timedout-%s.ndjson" % rid)
+                    with open(one, "w") as out:
+                        for e in run:
+                            out.write(json.dumps(e) + "\n")
+                    explained = bool(rs.get("stuck")) and vlib.validate_trace("ResumeTrace", "ResumeTrace_ascoded.cfg", one)["accepted"]
+                    if not explained:
+                        key = None
+                        inconclusive.append(rid)
+                    else:
+                        what += " -- this is the state in which the code before fix cb319ea waited for ever (Resume, AsCoded = TRUE)"
             else:
                 key = "reject-%s-%s-p%s" % (bad.get("e"), kind, proto)
                 what = "not a behaviour of Resume: " + vlib.explain_rejection(f, r["hw"])
             text = "%s -- %s" % (describe(run, None) if rs else "?", what)
-            found.append((rid, key, text))
-            if report:
+            if key is not None:
+                found.append((rid, key, text))
+            if report and key is not None:
                 job = jobmap.get((rid or 0) // 10)
                 v.violation(key, text, {"job": job, "file_index": (rid or 0) % 10, "events": run[:60],
                                         "tlc": r["out"][-1500:] if r["violated"] not in (None, "postcondition") else ""})
@@ -211,7 +228,7 @@ def judge(files, cfg, v, jobs, report=True, timeout=1800, max_rounds=12):
                         out.write(json.dumps(e) + "\n")
                 nxt.append(p2)
         todo = nxt
-    return found, states
+    return found, states, inconclusive
 
 
 def gather(outdir, nfiles=4):
@@ -284,7 +301,7 @@ def mbt_compare(runs, flagged, v, jobs):
             continue
         f = job["files"][rid % 10]
         done = next((e for e in ev if e["e"] == "done"), None)
-        if f["stuck"] or not done or done["cres"] != "ok" or done["sres"] != "ok":
+        if not done or done["cres"] != "ok" or done["sres"] != "ok":
             continue
         n += 1
         size = next((e for e in ev if e["e"] == "size"), None)
@@ -308,13 +325,13 @@ def mbt_compare(runs, flagged, v, jobs):
 
 def check_runs(h, jobs, v, cov, name="c08"):
     s, files, details = real_runs(h, jobs, name, v)
-    found, st = judge(files, "ResumeTrace.cfg", v, jobs)
+    found, st, unjudged = judge(files, "ResumeTrace.cfg", v, jobs)
     runs = runs_of([f for f in files])
     flagged = {rid for rid, _, _ in found}
     n, mism = mbt_compare(runs, flagged, v, jobs)
     cov["traces_validated_against_impl"] = s.get("files", 0)
     cov["real_transfers"] = s.get("runs", 0)
-    cov["inconclusive_timeouts"] = s.get("inconclusive", 0)
+    cov["inconclusive_timeouts"] = s.get("inconclusive", 0) + len(unjudged)
     cov["retried_timeouts"] = s.get("retried_timeouts", 0)
     cov["shards_used"], cov["mem_available_mb"], cov["scratch"] = s["shards_used"], s["mem_available_mb"], s["scratch"]
     cov["driver_wall_s"] = s["wall_s"]
@@ -368,7 +385,7 @@ def run(tier, v):
     if len(cases) < 300:
         raise vlib.Infra("ResumeGen exported only %d relations" % len(cases))
     cov["relations_exported"] = len(cases)
-    cov["relations_stuck_as_coded"] = sorted({"p%d src=%s old=%s" % (c["proto"], c["src"], "nonempty") for c in cases if c["stuck"]})
+    cov["relations_stuck_before_fix_cb319ea"] = sorted({"p%d src=%s old=%s" % (c["proto"], c["src"], "nonempty") for c in cases if c["stuck"]})
     chosen = select(cases, tier, rng)
     jobs = make_jobs(chosen, tier, rng, vlib.seed())
     cov["relations_run_on_real_code"] = sum(len(j["files"]) for j in jobs)
@@ -398,18 +415,10 @@ def run(tier, v):
     for rid in sorted(runs)[:2]:
         cov["samples"].append({"recorded_run": [{k: x for k, x in e.items() if k not in ("run",)} for e in runs[rid]]})
     cov["samples"].append({"mbt_case": cases[len(cases) // 2]})
-    # the runs the as-coded model predicts not to finish: is that what happened, and does the as-coded model accept them?
+    # the relation in which the pre-fix code sat still: what the real code does with it now
     stuck_runs = [rid for rid, ev in runs.items() if ev[0].get("stuck")]
-    if stuck_runs:
-        p = os.path.join(vlib.scratch(), "stuck.ndjson")
-        with open(p, "w") as fh:
-            for rid in stuck_runs:
-                for e in runs[rid]:
-                    fh.write(json.dumps(e) + "\n")
-        ra2 = vlib.validate_trace("ResumeTrace", "ResumeTrace_ascoded.cfg", p)
-        cov["stuck_runs"] = len(stuck_runs)
-        cov["stuck_runs_explained_by_ascoded_model"] = ra2["accepted"]
-        cov["stuck_runs_failed_on_real_code"] = sum(1 for rid in stuck_runs if any(e["e"] == "done" and e["cres"] != "ok" for e in runs[rid]))
+    cov["emptysrc_runs"] = len(stuck_runs)
+    cov["emptysrc_runs_completed"] = sum(1 for rid in stuck_runs if any(e["e"] == "done" and e["cres"] == "ok" and e["sres"] == "ok" and e["same"] for e in runs[rid]))
     # binding demonstration on a recorded run with a mismatch ack and on one with a tail to cut
     good = [f for f in files if os.path.getsize(f) > 0]
     clean = os.path.join(vlib.scratch(), "selftest-base.ndjson")
@@ -419,6 +428,10 @@ def run(tier, v):
     pick2 = [rid for rid, ev in sorted(runs.items()) if rid not in bad_ids and not ev[0].get("stuck")
              and any(e["e"] == "ack" for e in ev) and len(ev[0]["old"]) > len(ev[0]["src"])]
     if not pick or not pick2:
+        if found or v.violations or v.known_hit:
+            # every candidate run is itself a finding: the verdict stands, nothing to demonstrate the binding on
+            cov["selftest"] = {"skipped": "no accepted run with a mismatch ack / a longer old file (%d runs rejected)" % len(found)}
+            return cov
         raise vlib.Infra("no recorded run with a mismatch ack / a longer old file to demonstrate the binding on")
     with open(clean, "w") as fh:
         for rid in (pick[0], pick2[0]):
